@@ -298,8 +298,9 @@ func c01Type5(c *core.Ctx, i int, keys []*oprf.PrivateKey) {
 	var nb int
 	if i < 3*len(c01BatchSizes) {
 		nb = c01BatchSizes[i%len(c01BatchSizes)]
-	} else if c.Thorough() && i%997 == 0 {
-		nb = []int{511, 512, 513}[(i/997)%3]
+	} else if i%97 == 0 {
+		// the element list is 32n bytes: its varint length prefix changes width at n = 2 and n = 512
+		nb = []int{511, 512, 513}[(i/97)%3]
 	} else {
 		nb = 1 + r.IntN(r.Of(4, 12, 40))
 	}
